@@ -219,6 +219,62 @@ fn io_fault() -> io::Error {
     io::Error::from(io::ErrorKind::Other)
 }
 
+/// Builds a file image directly in the ghost bytes (no syscall counters, no
+/// faults): used with the real encoder to lay down records whose tags and
+/// lengths stay constants for symbolic execution.
+pub(crate) struct GhostWriter {
+    pub slot: usize,
+    pub pos: usize,
+}
+
+impl io::Write for GhostWriter {
+    fn write(&mut self, buf: &[u8]) -> io::Result<usize> {
+        let n = buf.len();
+        let mut i = 0;
+        while i < n {
+            let p = self.pos + i;
+            if p >= FBYTES {
+                #[cfg(kani)]
+                kani::assume(false);
+                break;
+            }
+            bytes(self.slot)[p] = buf[i];
+            i += 1;
+        }
+        self.pos += n;
+        Ok(n)
+    }
+
+    fn flush(&mut self) -> io::Result<()> {
+        Ok(())
+    }
+}
+
+/// Stand-in for `std::io::BufReader` (substituted textually in
+/// src/chunk/mod.rs by the overlay): a pass-through reader, i.e. BufReader
+/// with an empty buffer. Reason: std's `Buffer` has a `bool` field, rustc puts
+/// the discriminant of `Result<RecordIterator<BufReader<..>>, io::Error>` into
+/// that bool's niche, and Kani/CBMC cannot constant-fold a discriminant read
+/// from a bool niche - every value that passes through the `?` after
+/// `load_records_iter` (file position, offsets, record tags) turns symbolic and
+/// the decoder is explored for every record kind at every record. Buffering is
+/// a std-internal matter and invisible to raft-log.
+pub(crate) struct GhostBufReader<R> {
+    inner: R,
+}
+
+impl<R: io::Read> GhostBufReader<R> {
+    pub(crate) fn with_capacity(_capacity: usize, inner: R) -> Self {
+        GhostBufReader { inner }
+    }
+}
+
+impl<R: io::Read> io::Read for GhostBufReader<R> {
+    fn read(&mut self, buf: &mut [u8]) -> io::Result<usize> {
+        self.inner.read(buf)
+    }
+}
+
 // ---- operations used by the stubs ----
 
 /// create_new semantics
